@@ -5,10 +5,14 @@ including steps that raise (the state returned with an error is what is left on 
 -/
 namespace Infretis.Store
 
-/-- every file that `load_path(load/p)` needs is there -/
+/-- every file that `load_path(load/p)` needs is there: order.txt, traj.txt, and the record of what
+    traj.txt refers to EXISTS (`St.txt`, compared by the tie with the names in the real traj.txt after
+    every call) and every trajectory file it names is on disk.
+    [Until the audit of 2026-09-29 the third conjunct was `∀ adr, lookup p s.txt = some adr → …`, vacuous for a
+    path without a record; a state with a live path that has lost all its trajectory files was `Good`.] -/
 def Intact (s : St) (p : Nat) : Prop :=
   DFile.txt p 0 ∈ s.disk ∧ DFile.txt p 1 ∈ s.disk ∧
-    ∀ adr, lookup p s.txt = some adr → ∀ a ∈ adr, DFile.acc p a ∈ s.disk
+    ∃ adr, lookup p s.txt = some adr ∧ ∀ a ∈ adr, DFile.acc p a ∈ s.disk
 
 structure Good (s : St) : Prop where
   olds_dead : ∀ q ∈ keys s.pnOlds, q ∉ s.live ∧ (s.n : Int) - 2 < q ∧ q < s.trajNum
@@ -159,20 +163,18 @@ theorem replace_intact (s : St) (pnOld : Nat) (files kept : List String) (p : Na
     intro hn
     obtain ⟨pd, adr, rest, h1, h2, h3, _⟩ := replace_removed s pnOld files kept g hgd hn
     exact hh pd adr rest h1 h3 (h2.symm.trans hgp)
-  obtain ⟨h0, h1, h2⟩ := hi
-  refine ⟨keep _ h0 rfl, keep _ h1 rfl, ?_⟩
-  intro adr hl a ha
-  rw [htxt] at hl
-  exact keep _ (h2 adr hl a ha) rfl
+  obtain ⟨h0, h1, adr, hl, h2⟩ := hi
+  refine ⟨keep _ h0 rfl, keep _ h1 rfl, adr, ?_, ?_⟩
+  · rw [htxt]; exact hl
+  · intro a ha
+    exact keep _ (h2 a ha) rfl
 
 /-- the path just stored is intact after `replace` (when its `traj_data` lookup succeeded) -/
 theorem replace_new_intact (s : St) (hg : Good s) (pnOld : Nat) (files kept : List String)
     (hk : lookup pnOld s.trajData ≠ none) : Intact (replace s pnOld files kept).1 s.trajNum := by
   have hm : Intact (stored s pnOld files kept) s.trajNum := by
-    refine ⟨by simp [stored, storeNew], by simp [stored, storeNew], ?_⟩
-    intro adr hl a ha
-    simp only [stored, storeNew, lookup, if_true, Option.some.injEq] at hl
-    subst hl
+    refine ⟨by simp [stored, storeNew], by simp [stored, storeNew], files, by simp [stored, storeNew, lookup], ?_⟩
+    intro a ha
     simp only [stored, storeNew]
     apply List.mem_append_left
     apply List.mem_append_right
@@ -193,11 +195,11 @@ theorem replace_new_intact (s : St) (hg : Good s) (pnOld : Nat) (files kept : Li
       intro hn
       obtain ⟨pd, adr, rest, h1, h2, _⟩ := hrem g hgd hn
       exact hhead pd adr rest h1 (h2.symm.trans hgp)
-    obtain ⟨h0, h1, h2⟩ := hm
-    refine ⟨keep _ h0 rfl, keep _ h1 rfl, ?_⟩
-    intro adr hl a ha
-    rw [h10] at hl
-    exact keep _ (h2 adr hl a ha) rfl
+    obtain ⟨h0, h1, adr, hl, h2⟩ := hm
+    refine ⟨keep _ h0 rfl, keep _ h1 rfl, adr, ?_, ?_⟩
+    · rw [h10]; exact hl
+    · intro a ha
+      exact keep _ (h2 a ha) rfl
   rcases replace_shape s pnOld files kept with ⟨h0, _⟩ | ⟨adrOld, _, ⟨_, he⟩ | ⟨_, he⟩⟩
   · exact absurd h0 hk
   · rw [he]; exact transfer adrOld
